@@ -7,6 +7,9 @@
 //	       (Tengo.Model.Spec) on the same program (AST dumped from the real parser): outcome class,
 //	       error message, every global value. The reference interpreter is the property's oracle:
 //	       a difference on a program inside the modelled language is a violation of C01.
+//	comp   the real compiler versus the Lean model of the whole compiler (Tengo.Model.Compiler) on every
+//	       generated program and corpus entry: main function bytes, every constant (function constants with
+//	       bytes, NumLocals, NumParameters, VarArgs), MaxSymbols of the root table, compile error text.
 package main
 
 import (
@@ -154,6 +157,7 @@ func checkProgram(src string, feats map[string]int, inputs ...inputVar) {
 		res.Dist("parse-error")
 		return
 	}
+	checkComp(src, inputs)
 	real, _ := realOutcome(src, inputs)
 	if feats["forin-map"] > 0 || strings.Contains(src, " in ") {
 		// Go map iteration order is random: a program whose outcome depends on it is outside the property
@@ -212,6 +216,23 @@ func checkProgram(src string, feats map[string]int, inputs ...inputVar) {
 			Oracle: "Lean reference interpreter Tengo.Model.Spec (docs/tutorial.md, operators.md, runtime-types.md, builtins.md)"})
 	}
 }
+
+// checkComp: the real compiler against the Lean model of the whole compiler on src (stream `comp`).
+func checkComp(src string, inputs []inputVar) {
+	names := make([]string, len(inputs))
+	for i, in := range inputs {
+		names[i] = in.Name
+	}
+	shown := src
+	if len(names) > 0 {
+		shown = compInputsPrefix + strings.Join(names, ",") + "\n" + src
+	}
+	if err := lib.CompStream(res, drv, src, names, replayInput{shown}); err != nil {
+		fatal(err)
+	}
+}
+
+const compInputsPrefix = "// comp-inputs: "
 
 // checkVM: the real VM against the Lean VM model (Tengo.Model.VM) on the code the real compiler emits for
 // src: every dispatched instruction (function, ip, sp, bp, frame index, allocation counter), the outcome,
@@ -469,6 +490,17 @@ func main() {
 	for _, src := range corpus {
 		checkProgram(src, map[string]int{"a": 1, "b": 1, "c": 1, "d": 1, "e": 1})
 	}
+	compCases := lib.CompBoundaryPrograms()
+	if f.Thorough() {
+		compCases = append(compCases, lib.CompLargePrograms()...)
+	}
+	for _, bc := range compCases {
+		ins := make([]inputVar, len(bc.Inputs))
+		for i, n := range bc.Inputs {
+			ins[i] = inputVar{Name: n}
+		}
+		checkComp(bc.Src, ins)
+	}
 	rng := lib.NewRNG(f.Seed)
 	n := f.Scale(1500, 60000)
 	for i := 0; i < n; i++ {
@@ -485,6 +517,11 @@ func main() {
 		}
 		src := g.Program()
 		checkProgram(src, g.Feat, inputs...)
+		// `comp` only: a textual mutant of the program (compile error paths, other scoping situations)
+		if m := lib.CompMutate(r, src); m != src {
+			res.Dist("comp-mutants")
+			checkComp(m, inputs)
+		}
 		if i%40 == 0 {
 			for k, v := range g.Feat {
 				res.Distribution["feat:"+k] += v
@@ -518,6 +555,16 @@ func replay(path string) {
 		fatal(err)
 	}
 	for _, v := range rp.Violations {
+		if strings.HasPrefix(v.Input.Source, compInputsPrefix) {
+			// a recorded `comp` case with host inputs: only the names matter to the compiler
+			if i := strings.Index(v.Input.Source, "\n"); i >= 0 {
+				names := strings.Split(strings.TrimPrefix(v.Input.Source[:i], compInputsPrefix), ",")
+				if err := lib.CompStream(res, drv, v.Input.Source[i+1:], names, replayInput{v.Input.Source}); err != nil {
+					fatal(err)
+				}
+			}
+			continue
+		}
 		if v.Input.Source != "" {
 			checkProgram(v.Input.Source, map[string]int{"a": 1, "b": 1, "c": 1, "d": 1, "e": 1})
 		}
